@@ -323,3 +323,12 @@ def p_raised_is(I, args, kwargs, node):
 
 PRIMS.update({'raised_by': p_raised_by, 'raised_is_exception': p_raised_is_exception,
               'raised_is': p_raised_is})
+
+
+def p_scope_marker(I, args, kwargs, node):
+    from .vc import real_module
+    from .values import VConc
+    return VConc(real_module('utils.py').marker)
+
+
+PRIMS['scope_marker'] = p_scope_marker
